@@ -103,7 +103,9 @@ C10(i) ==
        <<"C10.wellformed_wall_parity", WallParity(s.grid)>>,
        <<"C10.wellformed_instance", WellFormedInstance(A(s))>> }
    ELSE {})
-  \cup (IF GeneratorHasChoice THEN C10NonConstant(i, LAMBDA st : st.grid) ELSE {})
+  \* a room with only two or three possible mazes needs more keys before "all equal" is evidence of a constant
+  \cup (IF GeneratorHasChoice /\ (GeneratorHasManyChoices \/ Cardinality(ResetLines) >= 12)
+        THEN C10NonConstant(i, LAMBDA st : st.grid) ELSE {})
 
 (* ---------------- C11: time limit as requested by the harness ---------------- *)
 \* "another reason": no dirty tile left, or the step was treated as an invalid action (by the rules or by the
